@@ -5,12 +5,14 @@ import (
 	"encoding/json"
 	"fmt"
 	"math/big"
+	"strings"
 
 	yaml3 "gopkg.in/yaml.v3"
 )
 
 // JSON documents with member order, duplicate members and exact decimals:
-//   nil | bool | jnum | jstr | jarr | *jobj
+//
+//	nil | bool | jnum | jstr | jarr | *jobj
 type jnum struct {
 	m *big.Int
 	s int // value = m * 10^-s
@@ -220,6 +222,30 @@ func renderJSON(v any) []byte {
 }
 
 // renderYAML renders the document as block-style YAML through yaml.v3 nodes.
+// yamlStrNode renders a string so that every YAML reader (1.1 and 1.2 resolution) sees a string:
+// plain only when the text cannot resolve to anything else, double-quoted otherwise. (A Node given
+// to yaml.v3 is not subject to the YAML 1.1 compatibility quoting that yaml.v3 applies to Go
+// strings — "y", "n", "0123", "1:30" would come out plain and read back as bool/int by yaml.v2.)
+func yamlStrNode(s string) *yaml3.Node {
+	n := &yaml3.Node{}
+	n.SetString(s)
+	plain := s != ""
+	for i, c := range []byte(s) {
+		letter := (c >= 'a' && c <= 'z') || (c >= 'A' && c <= 'Z') || c == '/'
+		if !(letter || (i > 0 && ((c >= '0' && c <= '9') || c == '_' || c == '.' || c == '/' || c == '=' || c == '-'))) {
+			plain = false
+		}
+	}
+	switch strings.ToLower(s) {
+	case "y", "n", "yes", "no", "on", "off", "true", "false", "null", "nan", "inf":
+		plain = false
+	}
+	if !plain && n.Style == 0 {
+		n.Style = yaml3.DoubleQuotedStyle
+	}
+	return n
+}
+
 func renderYAML(v any) []byte {
 	var node func(v any) *yaml3.Node
 	node = func(v any) *yaml3.Node {
@@ -237,9 +263,7 @@ func renderYAML(v any) []byte {
 			// resolve to floats and must not be written with an explicit !!int tag)
 			return &yaml3.Node{Kind: yaml3.ScalarNode, Value: numText(t)}
 		case jstr:
-			n := &yaml3.Node{}
-			n.SetString(string(t))
-			return n
+			return yamlStrNode(string(t))
 		case jarr:
 			n := &yaml3.Node{Kind: yaml3.SequenceNode, Tag: "!!seq"}
 			for _, e := range t {
@@ -249,9 +273,7 @@ func renderYAML(v any) []byte {
 		case *jobj:
 			n := &yaml3.Node{Kind: yaml3.MappingNode, Tag: "!!map"}
 			for _, m := range t.members {
-				k := &yaml3.Node{}
-				k.SetString(m.k)
-				n.Content = append(n.Content, k, node(m.v))
+				n.Content = append(n.Content, yamlStrNode(m.k), node(m.v))
 			}
 			return n
 		}
